@@ -106,7 +106,7 @@ def observe(ex, pipelines, rr, results=(), assignments=()):
             call(pl.get_consumed_ram_gb)
         if rr.random() < 0.4:
             call(pl.to_dict)
-        for lst in (pl.active_containers, pl.suspending_containers, pl.suspended_containers[-3:]):
+        for lst in (pl.active_containers, pl.suspending_containers, list(pl.suspended_containers)[-3:]):
             for c in list(lst):
                 if rr.random() < 0.4:
                     for f in (c.get_pipeline_id, c.ticks_elapsed, c.is_completed, c.get_current_memory_usage,
@@ -791,6 +791,7 @@ def run(scn, rng=None):
         acct = {"accepted": 0, "ok": 0, "fail": 0}
         prev = snapshot(ex, built)
         T = cfg["ticks"]
+        idle_run = 0
         for t in range(T):
             log.tick = t
             out["ticks"] = t + 1
@@ -1004,8 +1005,16 @@ def run(scn, rng=None):
                     raise log.bad
             checks = [_results, lambda: check_results(res, t), _logbad, lambda: invariants(ex, acct, t)]
             checks += [lambda k=k: _compare_pools(ex, mex, obs, t, k) for k in ("lists", "free", "mem")]
-            checks += [lambda: _compare_states(built, t, "EX.states"), lambda: _check_counts(built, t),
-                       lambda: _check_iteration_midrun(built, scn["pipes"], t)]
+            # a long idle stretch (no command, nothing live, no result): the per-pipeline sweeps run on its first two
+            # ticks and then on every 64th - what an idle tick might do to operator state is still looked at, but
+            # 20 000 idle ticks before a 100-operator pipeline stay affordable
+            idle = not cmds and not res and not any(p_.active_containers or p_.suspending_containers for p_ in ex.pools)
+            idle_run = idle_run + 1 if idle else 0
+            if idle_run <= 2 or idle_run % 64 == 0:
+                checks += [lambda: _compare_states(built, t, "EX.states"), lambda: _check_counts(built, t),
+                           lambda: _check_iteration_midrun(built, scn["pipes"], t),
+                           lambda: _check_premature_completion(built, t),
+                           lambda: check_orphans(ex, [(bi_, b_.p) for bi_, b_ in enumerate(built) if b_.at <= t], t)]
             for chk in checks:
                 try:
                     chk()
@@ -1138,6 +1147,33 @@ def _compare_states(built, t, rule):
         want = [m.state for m in b.mops]
         if got != want:
             raise Violation(rule, {"pipeline": bi, "got": got, "want": want}, t)
+
+
+def check_orphans(ex, pipelines, t, okey=None):
+    """C02: RUNNING means 'in a running container', SUSPENDING means 'in a container that is writing out': an operator
+    left in one of these states without such a container can never move again."""
+    run_ops, sus_ops = set(), set()
+    for pl in ex.pools:
+        for c in pl.active_containers:
+            run_ops.update(id(o) for o in c.operators)
+        for c in pl.suspending_containers:
+            sus_ops.update(id(o) for o in c.operators)
+    for k, p in pipelines:
+        for i, (o, st) in enumerate(p.runtime_status().operator_states.items()):
+            v = st.value
+            if (v == "running" and id(o) not in run_ops) or (v == "suspending" and id(o) not in sus_ops):
+                raise Violation("C02.orphan_state", {"pipeline": k, "op": okey(o) if okey else i, "state": v,
+                                                     "why": "no live container holds this operator"}, t)
+
+
+def _check_premature_completion(built, t):
+    """C01 is about work, not labels: an operator that reads COMPLETED while the work the time model gives it is still
+    outstanding opens the gate for its children too early."""
+    for bi, b in enumerate(built):
+        for i, (o, m) in enumerate(zip(b.rops, b.mops)):
+            if o.state().value == "completed" and m.state in (M.R, M.A) and any(m in c.parents for c in b.mops):
+                raise Violation("C01.parent_completed_early", {"pipeline": bi, "op": i, "model_state": m.state,
+                                                               "children": [j for j, c in enumerate(b.mops) if m in c.parents]}, t)
 
 
 def _check_counts(built, t):
